@@ -781,6 +781,11 @@ class PDFPageInterpreter:
                 raise PDFInterpreterError("No colorspace specified!")
             n = 1
 
+        if len(self.argstack) < n:
+            log.warning(f"Cannot set color because fewer than {n} operands are given")
+            self.argstack = []
+            return
+
         if n == 1:
             gray = self.pop(1)[0]
             gray_f = safe_float(gray)
@@ -825,6 +830,11 @@ class PDFPageInterpreter:
             if settings.STRICT:
                 raise PDFInterpreterError("No colorspace specified!")
             n = 1
+
+        if len(self.argstack) < n:
+            log.warning(f"Cannot set color because fewer than {n} operands are given")
+            self.argstack = []
+            return
 
         if n == 1:
             gray = self.pop(1)[0]
